@@ -52,11 +52,22 @@ def machine_out(m, order):
 
 
 def run_case(c):
-    machine = sim.SimMachine(c)
-    net = sim.Net(machine)
+    """One machine state probed by a fresh controller -- or, for a history, ONE controller probing the successive
+    states of a machine (the simulator's state is replaced between the probes, as a reboot would)."""
+    stages = c["stages"] if "stages" in c else [c]
+    net = sim.Net(sim.SimMachine(stages[0]))
     net.install(scp_connection)
-    out = {}
     mc = MachineController("simulated-machine")
+    outs = []
+    for st in stages:
+        net.machine = sim.SimMachine(st)
+        net.queue = []
+        outs.append(probe(mc, net, st))
+    return {"stages": outs} if "stages" in c else outs[0]
+
+
+def probe(mc, net, c):
+    out = {}
     # ---- software version (both encodings)
     out["sver"] = []
     for x, y, p in c.get("sver_queries", []):
